@@ -111,6 +111,23 @@ def r4_placeholders(repo, report):
                     want = vkey(sr.exit[1])
                     if kv[key] != want:
                         bad.append((key, {"paired": kv[key], "single": want, "when": {k: v for k, v in sr.valuation.items()}}))
+    # the three placeholders that stand for the read's name are taken from the read the renamer is handed - the output
+    # of the steps before it (--length-tag, --strip-suffix, prefix/suffix) - not from the record as it was read
+    nbad = []
+    for key in ("header", "id", "comment"):
+        if key not in code:
+            nbad.append(f"{{{key}}} has no entry in the code table")
+            continue
+        e_ = _ast.parse(code[key], mode="eval").body
+        roots = {x.id for x in _ast.walk(e_) if isinstance(x, _ast.Name)}
+        if "info" in roots or (key == "header" and code[key].replace(" ", "") != "read.name") or (key != "header" and not roots <= {"id_", "comment"}):
+            nbad.append(f"{{{key}}} is computed as {code[key]}")
+    parsed = [x.value for x in _ast.walk(comp) if isinstance(x, _ast.Constant) and isinstance(x.value, str) and "parse_name(" in x.value]
+    if not parsed or any("parse_name(read.name)" not in x.replace(" ", "") for x in parsed):
+        nbad.append(f"id_/comment are parsed from {parsed}")
+    report.ob("C10.R5", "Renamer: {header}, {id}, {comment} are those of the read at hand", not nbad, facts={"header": code.get("header"), "id": code.get("id"), "comment": code.get("comment"), "parsed_from": parsed, "problems": nbad},
+              loc=repo.loc(comp), expected="header = read.name; id_, comment = self.parse_name(read.name)",
+              why=(f"{nbad[0]}: the renaming step no longer sees the name produced by the earlier steps (--length-tag, --strip-suffix run before --rename)" if nbad else ""))
     report.ob("C10.R5", "PairedEndRenamer fills the info placeholders like Renamer", not bad and n >= 8, facts={"compared": n, "problems": [str(b)[:260] for b in bad[:3]]},
               expected="cut_prefix / cut_suffix: the recorded piece or ''; adapter_name: name of the last match or 'no_adapter'; match_sequence: of the last match or ''", loc=repo.loc(lp), cases=n,
               why=str(bad[0])[:220] if bad else "")
